@@ -6,9 +6,14 @@ package mocrelay
 
 // VerifRegistrySize reports how many connections and subscriptions the router's registry holds.
 func (router *RouterHandler) VerifRegistrySize() (conns, subs int) {
-	router.subs.subs.Loop(func(_ string, m *safeMap[string, *subscriber]) {
+	outer := router.subs.subs
+	outer.mu.RLock()
+	defer outer.mu.RUnlock()
+	for _, m := range outer.m {
 		conns++
-		m.Loop(func(_ string, _ *subscriber) { subs++ })
-	})
+		m.mu.RLock()
+		subs += len(m.m)
+		m.mu.RUnlock()
+	}
 	return
 }
